@@ -182,8 +182,8 @@ void BinaryFileReader::read_edges(Decoder &reader, const TopoChunkHeader &header
     auto read_all = [&](auto read_one)
     {
         for (size_t i = 0; i < header.span.count; ++i) {
-            uint64_t src = read_one(reader) + header.span.first;
-            uint64_t dst = read_one(reader) + header.span.first;
+            uint64_t src = read_one(reader) + header.handle_offset;
+            uint64_t dst = read_one(reader) + header.handle_offset;
             if (src >= n_verts_read_ || dst >= n_verts_read_) {
                 error_msg_ = std::string("Edge ") + std::to_string(header.span.first + i)
                     + " (src " + std::to_string(src) + ", dst = " + std::to_string(dst)
